@@ -60,7 +60,7 @@ def gen_plan(r):
     return {
         "attempts": attempts, "client_close_at": 10**9, "client_close_kind": "timeout", "client_data": times, "echo_client": r.random() < 0.5,
         "hook_delay": slow, "kill_client": False, "on_server_data": ["none"], "on_server_close": ["close"], "tcp_timeout": timeout,
-        "data_hooks": data_hooks,
+        "data_hooks": data_hooks, "client_drain_block": 0,
     }
 
 
